@@ -510,3 +510,66 @@ M("c06-pop-before-acquire", ["C06", "C03"], ["C06.mutex", "C03.elect"],
         if pending is not None:
             self._external_queue.appendleft(pending)
 """))
+
+# ----------------------------------------------------------------------------------------- C14
+M("c14-sync-on-before-swapped", "C14", ["C14.flow"],
+  E(SYNC, """        result = self.sm._callbacks.call(transition.before.key, *args, **kwargs)
+        if source is not None and not transition.internal:
+            self.sm._callbacks.call(source.exit.key, *args, **kwargs)
+
+        result += self.sm._callbacks.call(transition.on.key, *args, **kwargs)
+""", """        result = self.sm._callbacks.call(transition.before.key, *args, **kwargs)
+        if source is not None and not transition.internal:
+            self.sm._callbacks.call(source.exit.key, *args, **kwargs)
+
+        result = self.sm._callbacks.call(transition.on.key, *args, **kwargs) + result
+"""))
+M("c14-async-after-results-appended", "C14", ["C14.flow"],
+  E(ASYNC, "        await self.sm._callbacks.async_call(transition.after.key, *args, **kwargs)\n",
+    "        result += await self.sm._callbacks.async_call(transition.after.key, *args, **kwargs)\n"))
+M("c14-sync-unwrap-le-1", "C14", ["C14.unwrap"],
+  E(SYNC, """        if len(result) == 0:
+            result = None
+        elif len(result) == 1:
+            result = result[0]
+""", """        if len(result) == 0:
+            result = None
+        elif len(result) <= 2:
+            result = result[0]
+"""))
+M("c14-async-unwrap-no-none", "C14", ["C14.unwrap"],
+  E(ASYNC, """        if len(result) == 0:
+            result = None
+        elif len(result) == 1:
+            result = result[0]
+""", """        if len(result) == 1:
+            result = result[0]
+"""))
+M("c14-call-filters-none", "C14", ["C14.collect"],
+  E(CB, """        return [
+            callback.call(*args, **kwargs)
+            for callback in self
+            if callback.condition(*args, **kwargs)
+        ]""", """        results = [
+            callback.call(*args, **kwargs)
+            for callback in self
+            if callback.condition(*args, **kwargs)
+        ]
+        return [r for r in results if r is not None]"""))
+B("b-trigger-returns-result-of-rejected", ["C14", "C01"],
+  E(SYNC, "        return result if executed else None", "        return result"),
+  E(SYNC, "        executed = False\n        if trigger_data.event", "        executed = False\n        result = None\n        if trigger_data.event"),
+  note="the result component of a rejected activation is None, so this is behaviour-preserving")
+M("c14-on-result-dropped", "C14", ["C14.flow"],
+  E(SYNC, "        result += self.sm._callbacks.call(transition.on.key, *args, **kwargs)\n",
+    "        self.sm._callbacks.call(transition.on.key, *args, **kwargs)\n"))
+
+B("b-unwrap-not-result", ["C14"],
+  E(SYNC, """        if len(result) == 0:
+            result = None
+        elif len(result) == 1:""", """        if not result:
+            result = None
+        elif len(result) == 1:"""))
+
+M("c14-trigger-returns-constant-when-not-executed", "C14", ["C14.none"],
+  E(SYNC, "        return result if executed else None", "        return result if executed else False"))
